@@ -59,7 +59,7 @@ func (c *Config) has(f string) bool {
 
 var allFeatures = []string{
 	"exits", "proposer_slashings", "attester_slashings", "deposits", "bls_changes", "sync_partial",
-	"forks", "late_atts", "low_balances", "blobs", "epoch_gap", "late_merge", "eth1_split",
+	"forks", "late_atts", "low_balances", "blobs", "epoch_gap", "late_merge", "eth1_split", "odd_votes",
 	// faults
 	"crash_restart", "multi_slot_jumps", "partition",
 }
@@ -397,6 +397,7 @@ type World struct {
 	dec         *beacon.ForkDecoder
 	gvr         common.Root
 	heldUntil   map[*phase0.Attestation]uint64 // votes held back for a late inclusion (0 = not held)
+	oddVote     map[*phase0.Attestation]common.Root // votes for a head or target that is not on the chain -> the head their voters really had
 	genesisTime common.Timestamp
 	// modelRoot: the state root the specification model gives a block on a pre-state (set by the
 	// simulation when the model is in use)
@@ -438,7 +439,7 @@ func fnvRoot(tag string, n uint64) (r common.Root) {
 func NewWorld(cfg *Config, res *core.Result) (*World, error) {
 	w := &World{cfg: cfg, spec: cfg.BuildSpec(), res: res, blocks: map[common.Root]*blockRec{},
 		syncMsgs: map[common.Root][]int{}, syncSigs: map[common.Root]map[int]common.BLSSignature{},
-		heldUntil: map[*phase0.Attestation]uint64{}, attDom: map[*phase0.Attestation][32]byte{}, attIn: map[*phase0.Attestation][]common.Root{}, syncDom: map[common.Root][32]byte{}, exited: map[int]bool{}, slashedV: map[int]bool{}, changedV: map[int]bool{}, deposits: &depositTree{}}
+		heldUntil: map[*phase0.Attestation]uint64{}, oddVote: map[*phase0.Attestation]common.Root{}, attDom: map[*phase0.Attestation][32]byte{}, attIn: map[*phase0.Attestation][]common.Root{}, syncDom: map[common.Root][32]byte{}, exited: map[int]bool{}, slashedV: map[int]bool{}, changedV: map[int]bool{}, deposits: &depositTree{}}
 	w.rng = core.NewRng(cfg.Seed ^ 0x5eed)
 	w.keys = newKeyring(cfg.Validators + 24) // (genesis validators first, then the depositors' keys)
 	w.spec.ExecutionEngine = &scriptedEngine{}
@@ -621,6 +622,61 @@ func (w *World) attest(box *stateBox, head *blockRec, slot uint64) {
 			continue
 		}
 		dom := domainFor(fork, w.gvr, common.DOMAIN_BEACON_ATTESTER, common.Epoch(epoch))
+		// odd_votes: a minority of the committee sees another chain: right source, but a wrong target
+		// root, a wrong head root, both, or the parent as head. Such votes are valid block content;
+		// which participation flags (and rewards) they earn is the point.
+		if w.cfg.has("odd_votes") && len(signers) >= 2 && w.rng.Chance(1, 3) {
+			k := 1 + w.rng.Intn(len(signers)/2)
+			odd := phase0.AttestationData{Slot: data.Slot, Index: data.Index, BeaconBlockRoot: data.BeaconBlockRoot, Source: data.Source, Target: data.Target}
+			switch w.rng.Intn(4) {
+			case 0:
+				odd.Target.Root = fnvRoot("odd-target", slot<<8|ci)
+			case 1:
+				odd.BeaconBlockRoot = fnvRoot("odd-head", slot<<8|ci)
+			case 2:
+				odd.Target.Root = fnvRoot("odd-target", slot<<8|ci)
+				odd.BeaconBlockRoot = fnvRoot("odd-head", slot<<8|ci)
+			default:
+				if head.parent != (common.Root{}) {
+					odd.BeaconBlockRoot = head.parent
+				} else {
+					odd.BeaconBlockRoot = fnvRoot("odd-head", slot<<8|ci)
+				}
+			}
+			obits := make(phase0.AttestationBits, len(comm)/8+1)
+			obits[len(comm)/8] |= 1 << (uint(len(comm)) % 8)
+			var osigners []int
+			moved := 0
+			for pos, vi := range comm {
+				if moved >= k {
+					break
+				}
+				if bits[pos/8]&(1<<(uint(pos)%8)) == 0 {
+					continue
+				}
+				ki := w.keyOf(st, vi)
+				bits[pos/8] &^= 1 << (uint(pos) % 8)
+				obits[pos/8] |= 1 << (uint(pos) % 8)
+				osigners = append(osigners, ki)
+				for i, x := range signers {
+					if x == ki {
+						signers = append(signers[:i:i], signers[i+1:]...)
+						break
+					}
+				}
+				moved++
+			}
+			if len(osigners) > 0 {
+				oatt := &phase0.Attestation{AggregationBits: obits, Data: odd, Signature: w.keys.signAgg(osigners, signingRoot(odd.HashTreeRoot(tree.GetHashFn()), dom))}
+				w.atts = append(w.atts, oatt)
+				w.attDom[oatt] = dom
+				w.oddVote[oatt] = head.root // (the chain whose committees the vote belongs to)
+				w.res.Stat("attestations_with_odd_votes", 1)
+			}
+			if len(signers) == 0 {
+				continue
+			}
+		}
 		sr := signingRoot(data.HashTreeRoot(tree.GetHashFn()), dom)
 		att := &phase0.Attestation{AggregationBits: bits, Data: data, Signature: w.keys.signAgg(signers, sr)}
 		w.atts = append(w.atts, att)
@@ -834,7 +890,11 @@ func (w *World) produce(parent *blockRec, slot uint64) (*blockRec, error) {
 		if slot < w.heldUntil[a] {
 			continue
 		}
-		if !w.onChain(parent, a.Data.BeaconBlockRoot) {
+		viewOf := a.Data.BeaconBlockRoot
+		if real, odd := w.oddVote[a]; odd {
+			viewOf = real
+		}
+		if !w.onChain(parent, viewOf) {
 			continue
 		}
 		// the including state must derive the domain the attester signed under (it does not
